@@ -334,6 +334,13 @@ def observe(setup, kind):
         o["Ndat"] = list(getattr(setup, "Ndats", []))
         o["T"] = list(getattr(setup, "Ts", []))
     o["data"] = setup.data
+    # channel counts and (multi-setup) the working list of full datasets: public attributes that describe the same data
+    if kind == "single":
+        o["Nch"] = [setup.Nch] if hasattr(setup, "Nch") else None
+        o["datasets"] = None
+    else:
+        o["Nch"] = list(setup.Nchs) if hasattr(setup, "Nchs") else None
+        o["datasets"] = list(setup.datasets) if hasattr(setup, "datasets") else None
     return o
 
 
@@ -352,6 +359,17 @@ def cmp_state(m: Model, obs, ds, fs, T_stale, what):
         for i, d in enumerate(ds):
             if obs["Ndat"][i] != d.shape[0]:
                 v.append(("meta.Ndat", f"{what}: Ndat[{i}]={obs['Ndat'][i]!r} expected {d.shape[0]}"))
+    if obs.get("Nch") is not None:
+        if len(obs["Nch"]) != len(ds) or any(int(c) != d.shape[1] for c, d in zip(obs["Nch"], ds)):
+            v.append(("meta.Nch", f"{what}: channel counts {obs['Nch']!r} expected {[d.shape[1] for d in ds]!r}"))
+    if obs.get("datasets") is not None:
+        if len(obs["datasets"]) != len(ds):
+            v.append(("data.datasets", f"{what}: {len(obs['datasets'])} working datasets, expected {len(ds)}"))
+        else:
+            for i, (g, d) in enumerate(zip(obs["datasets"], ds)):
+                ok, why = _close(g, d)
+                if not ok:
+                    v.append(("data.datasets", f"{what}: datasets[{i}]: {why}"))
     if len(obs["T"]) != len(ds):
         v.append(("meta.T", f"{what}: {len(obs['T'])} durations for {len(ds)} datasets"))
     else:
